@@ -62,13 +62,13 @@ def tla_seq(xs):
     return "<<" + ", ".join('"%s"' % x for x in xs) + ">>"
 
 
-def behaviours(check, sites, names, forms, maximp, maxrefs, maxsec, label, timeout=1800, simulate=None):
+def behaviours(check, sites, names, forms, maximp, maxrefs, maxsec, label, timeout=1800, simulate=None, mixed=False):
     sites_tla = tla_set('[id |-> "%s", kind |-> "%s", typepos |-> %s]' % (s, SITES[s][0], "TRUE" if SITES[s][1] else "FALSE") for s in sites)
     mc = ("---- MODULE MCNsResolver ----\nEXTENDS NsResolver\nMCNames == %s\nMCImports == %s\nMCSites == %s\nMCForms == %s\n====\n"
           % (tla_set('"%s"' % n for n in names), tla_set(tla_seq(i) for i in IMPORTS), sites_tla, tla_set('"%s"' % f for f in forms)))
-    cfg = ("SPECIFICATION Spec\nCONSTANTS MaxImports = %d MaxRefs = %d MaxSections = %d\nCONSTANT Names <- MCNames\nCONSTANT Imports <- MCImports\n"
+    cfg = ("SPECIFICATION Spec\nCONSTANTS MaxImports = %d MaxRefs = %d MaxSections = %d Mixed = %s\nCONSTANT Names <- MCNames\nCONSTANT Imports <- MCImports\n"
            "CONSTANT Sites <- MCSites\nCONSTANT Forms <- MCForms\nINVARIANTS TypeOK ImportIndependence CaseRule\nPROPERTY NamespaceDropsImports\nCHECK_DEADLOCK FALSE\n"
-           % (maximp, maxrefs, maxsec))
+           % (maximp, maxrefs, maxsec, "TRUE" if mixed else "FALSE"))
     if simulate:
         r = core.tlc("MCNsResolver", cfg, files={"MCNsResolver.tla": mc}, timeout=timeout, simulate={"num": simulate, "depth": 60}, seed_=core.seed())
     else:
@@ -211,8 +211,18 @@ def run(tier):
     behs = [b for b in behs if not (json.dumps(b["prog"]) in seen or seen.add(json.dumps(b["prog"])))]
     run_matrix(check, wp, behs, "D")
     check.cov["matrix_D_files"] = len(behs)
+    # matrix E (order): imports between references - a name keeps the resolution it had where it stands, an import counts from its
+    # own position on (exhaustive for one import among two references; simulated for more)
+    behs = behaviours(check, a_sites, ["A", "C"], ["unq", "qual"], 1, 2, 1, "matrix E: imports between references" + (" (simulated)" if tier == "quick" else ""),
+                      mixed=True, simulate=30000 if tier == "quick" else None)
+    behs += behaviours(check, a_sites + ["param_type", "static_call"], ["A", "a", "C"], ["unq", "qual", "rel"], 3, 5, 2, "matrix E: longer files (simulated)",
+                       mixed=True, simulate=4000 if tier == "quick" else 60000)
+    seen = set()
+    behs = [b for b in behs if not (json.dumps(b["prog"]) in seen or seen.add(json.dumps(b["prog"])))]
+    run_matrix(check, wp, behs, "E")
+    check.cov["matrix_E_files"] = len(behs)
     check.cov["traces_validated_against_impl"] = check.cov["evaluations"]
     check.assumptions += ["NsResolver.tla: my reading of PHP's name resolution rules; rendering templates per site in vf/c14.py",
                           "special names are compared case-insensitively (the property says 'left unqualified')"]
     return check.finish({"exhaustive": True, "rule": "TLC enumerates every file of the factorised matrices A (rules), B (sites), C (special names), "
-                                                     "D (sections/declarations); distinct = distinct rendered files"})
+                                                     "D (sections/declarations), E (imports between references); distinct = distinct rendered files"})
